@@ -11,6 +11,7 @@ import (
 
 func init() {
 	register("C10", "structural conditions of strict total orders and sorting", func(c *core.Ctx) {
+		PtrDeref(c, "R-PTRDEREF", []*packages.Package{c.Pkg("ord")})
 		MinMax(c, "R-MINMAX", []*packages.Package{c.Pkg("seq"), c.Pkg("list"), c.Pkg("iterator")})
 		ordPkgs := []*packages.Package{c.Pkg("ord"), c.Pkg("fp")}
 		Lex(c, "R-LEX", ordPkgs)
